@@ -27,7 +27,11 @@ def defs_of(fnode, params=()):
             for x in ast.walk(n.target):
                 if isinstance(x, ast.Name):
                     counts[x.id] = counts.get(x.id, 0) + 2
-    return {k: v for k, v in vals.items() if counts.get(k) == 1 and k not in params}
+    rebound = set()
+    for n in ast.walk(fnode):
+        if isinstance(n, ast.Nonlocal):
+            rebound.update(n.names)
+    return {k: v for k, v in vals.items() if counts.get(k) == 1 and k not in params and k not in rebound}
 
 
 class _Sub(ast.NodeTransformer):
